@@ -121,4 +121,20 @@ theorem skel_Manager_Clear_ok : skel_Manager_Clear = ([
   "return m.Store.Clear(req.Context(), key)",
   "m.Store.Clear"] : List String) := rfl
 
+theorem flags_session_ok : flags_session = ([
+  "String redis-ca-path = \"\"",
+  "StringSlice redis-cluster-connection-urls = []string{}",
+  "Int redis-connection-idle-timeout = 0",
+  "String redis-connection-url = \"\"",
+  "Bool redis-insecure-skip-tls-verify = false",
+  "String redis-password = \"\"",
+  "StringSlice redis-sentinel-connection-urls = []string{}",
+  "String redis-sentinel-master-name = \"\"",
+  "String redis-sentinel-password = \"\"",
+  "Bool redis-use-cluster = false",
+  "Bool redis-use-sentinel = false",
+  "String redis-username = \"\"",
+  "Bool session-cookie-minimal = false",
+  "String session-store-type = \"cookie\""] : List String) := rfl
+
 end O2P.Expect.C10
